@@ -9,7 +9,7 @@ import (
 	"errors"
 	"fmt"
 	"io"
-	"math"
+	"math/bits"
 
 	"github.com/wrgl/wrgl/pkg/encoding"
 	"github.com/wrgl/wrgl/pkg/misc"
@@ -30,9 +30,9 @@ var typeStrs = map[int]string{
 }
 
 func encodeObjTypeAndLen(buf encoding.Bufferer, objType int, u uint64) []byte {
-	bits := int(math.Floor(math.Log2(float64(u)) + 1))
-	numBytes := (bits-4)/7 + 1
-	if (bits-4)%7 > 0 {
+	nbits := bits.Len64(u)
+	numBytes := (nbits-4)/7 + 1
+	if (nbits-4)%7 > 0 {
 		numBytes += 1
 	}
 	if numBytes == 1 {
@@ -40,10 +40,10 @@ func encodeObjTypeAndLen(buf encoding.Bufferer, objType int, u uint64) []byte {
 	}
 	b := buf.Buffer(numBytes)
 	b[0] = 128 | uint8(objType)<<4 | (uint8(u) & 15)
-	bits = 4
+	nbits = 4
 	for i := 1; i < numBytes; i++ {
-		b[i] = 128 | uint8(u>>bits)
-		bits += 7
+		b[i] = 128 | uint8(u>>nbits)
+		nbits += 7
 	}
 	b[numBytes-1] &= 127
 	return b
